@@ -150,7 +150,7 @@ func c10One(c *core.Ctx, cs srcCase) {
 func c10Run(c *core.Ctx) {
 	level := 2
 	if c.Thorough() {
-		level = 5
+		level = 6
 	}
 	seen := map[string]bool{}
 	for _, fam := range []string{"php7", "php5"} {
